@@ -243,6 +243,45 @@ def staged_schedules(rng, count):
     return out
 
 
+def zero_view_schedules(rng):
+    """Tasks without component views: resource-only systems, entry-views-only systems, identifier-only
+    systems - next to ordinary ones. They match every table (or none of the columns), and their
+    view lists are zero-sized types."""
+    out = []
+    c, d, e = rng.sample(range(len(COMPS)), 3)
+    r0, r1, r2 = rng.sample(range(len(RES)), 3)
+    # three independent tasks, two of them resource-only: one group
+    out.append(("zeroview", [Sys(False, [], ("none",), [(K_MUT, r0)], []), Sys(False, [], ("none",), [(K_MUT, r1)], []), Sys(False, [(K_MUT, c)], ("none",), [], [])]))
+    # a resource-only writer, then an ordinary task reading that resource, then another resource-only task
+    out.append(("zeroview", [Sys(False, [(K_MUT, d)], ("none",), [], []), Sys(False, [], ("none",), [(K_MUT, r0)], []), Sys(True, [(K_MUT, c)], ("none",), [(K_REF, r0)], []),
+                             Sys(False, [], ("none",), [(K_REF, r0), (K_MUT, r2)], [])]))
+    # entry-views-only tasks next to tasks iterating the same / another component
+    out.append(("zeroview", [Sys(False, [], ("none",), [], [(K_MUT, c)]), Sys(False, [(K_MUT, d)], ("none",), [], []), Sys(False, [(K_REF, c)], ("none",), [], []),
+                             Sys(False, [], ("none",), [], [(K_REF, c)])]))
+    # identifier-only and completely empty tasks (own state only)
+    out.append(("zeroview", [Sys(False, [(K_ID, None)], ("none",), [], []), Sys(False, [], ("none",), [], []), Sys(True, [(K_MUT, e)], ("none",), [], []),
+                             Sys(False, [], ("has", c), [(K_REF, r1)], [])]))
+    # a filtered zero-view task and a ParSystem without views
+    out.append(("zeroview", [Sys(True, [], ("none",), [(K_MUT, r1)], []), Sys(False, [(K_OPTMUT, c)], ("none",), [], []), Sys(False, [], ("not", ("has", d)), [], [(K_OPTMUT, e)])]))
+    out.append(("zeroview", [Sys(False, [], ("none",), [(K_MUT, r2)], []), Sys(False, [], ("none",), [(K_MUT, r2)], []), Sys(False, [(K_ID, None)], ("none",), [(K_REF, r2)], [(K_REF, d)])]))
+    return out
+
+
+def shared_then_writer_schedules(rng):
+    """A task viewing a component immutably through both its views and its entry views, next to a
+    writer of exactly that component (before and after it): the merged claim of the first task must
+    still cover the component."""
+    out = []
+    for (a, b) in [(K_REF, K_REF), (K_REF, K_OPT), (K_OPT, K_REF), (K_OPT, K_OPT)]:
+        for writer_first in (False, True):
+            c, d = rng.sample(range(len(COMPS)), 2)
+            both = Sys(False, [(K_ID, None), (a, c)] if rng.random() < 0.5 else [(a, c)], ("none",), [], [(b, c)])
+            writer = Sys(rng.random() < 0.3, [(rng.choice([K_MUT, K_OPTMUT]), c)], ("none",), [], [])
+            other = Sys(False, [(K_MUT, d)], ("none",), [], [])
+            out.append(("sharedthenwriter", [writer, both, other] if writer_first else [both, writer, other]))
+    return out
+
+
 def emit_system(w, name, task, salt, s):
     trait = "ParSystem" if s.par else "System"
     w(f"pub struct {name} {{ pub st: SysState }}")
@@ -377,6 +416,10 @@ def main():
     scheds = list(cov)
     if "--staged" in sys.argv:
         scheds = staged_schedules(rng, nbins * per)
+    if "--zeroview" in sys.argv:
+        scheds = zero_view_schedules(rng)
+    if "--shared" in sys.argv:
+        scheds = shared_then_writer_schedules(rng)
     while len(scheds) < nbins * per:
         nt = rng.choice([2, 3, 3, 4, 4, 5, 6])
         bias = rng.randrange(len(COMPS))
